@@ -375,6 +375,23 @@ func (g *c06Gen) one(invalid, stakingOK bool) *types.Transaction {
 	}
 	x := r.Intn(100)
 	switch {
+	case x < 8:
+		// a call of a precompiled contract (1..9), some with too little gas for it: the frame
+		// runs out of gas and is reverted (0x03 is the journal's "touched then reverted" special
+		// case: a dirty address without a state object)
+		to := common.BytesToAddress([]byte{byte(r.Pick(3, 3, 3, 1, 2, 4, 5, 9))})
+		data := r.Bytes(r.Pick(0, 0, 0, 1, 32, 64, 100))
+		dgas := uint64(0)
+		for _, c := range data {
+			if c == 0 {
+				dgas += 4
+			} else {
+				dgas += 68
+			}
+		}
+		gas := 21000 + dgas + uint64(r.Pick(0, 50, 100, 599, 600, 720, 3000, 100000))
+		val := big.NewInt(int64(r.Pick(0, 0, 0, 1)))
+		return use(fmt.Sprintf("precompile.%d", to[19]), types.NewTransaction(nonce, to, val, gas, price, data), true)
 	case x < 25:
 		amt := new(big.Int).SetUint64(r.U64() >> uint(r.Intn(60)))
 		return use("transfer", types.NewTransaction(nonce, anyAddr(), amt, 21000+uint64(r.Intn(3))*10000, price, nil), true)
